@@ -415,3 +415,16 @@ func loadSpec[S any](t *testing.T, r *Run, path, test string) (S, bool) {
 	}
 	return s, true
 }
+
+// Sampled says deterministically (from the spec) whether this case belongs to
+// a 1-in-n sample.
+func Sampled(spec interface{}, n int) bool {
+	b, err := json.Marshal(spec)
+	if err != nil {
+		return false
+	}
+	return fp(b)%uint64(n) == 0
+}
+
+// Replaying tells whether this process replays a saved case.
+func Replaying() bool { return os.Getenv("VERIF_REPLAY") != "" }
